@@ -6,7 +6,7 @@ DESIGN_REF = "DESIGN.md section 3 C10"
 TECHNIQUE = ("deductive, value-universal/shape-bounded: Woodbury-form contracts of the incremental overlap-ratio / Green's-function updates for every ordered pair "
              "of spin-orbitals with the Green's function a matrix of free symbols; bridge lemma to from-scratch quantities; HS-constant relations by computer algebra; "
              "per-iteration loop contracts of the site-scan bodies")
-EXPLANATION = ("cpmc.ratio/update: for EVERY ordered pair of spin-orbitals (same spin i!=j, opposite spin any i,j) and symbolic update constants, the real "
+EXPLANATION = ("nearest-neighbour variant: cpmc.site.*[...,nn-fast|nn-slow] and cpmc.bond.*: the on-site and the neighbour-bond loop bodies of propagator_cpmc_nn and propagator_cpmc_nn_slow satisfy the SAME per-step contract (walkers scaled by the chosen constants, overlaps / Green's functions of the scaled walkers, weights times [O(D_0 phi)+O(D_1 phi)]/(2 O(phi)), acceptance probability O(D_0 phi)/(O(D_0 phi)+O(D_1 phi))) for the four sub-steps of a bond, hence fast == slow; in the fast body the Green's-function update is a callee under its own contract (cpmc.update / woodbury) applied after checking its arguments (bond.update_args). cpmc.ratio/update: for EVERY ordered pair of spin-orbitals (same spin i!=j, opposite spin any i,j) and symbolic update constants, the real "
                "calc_overlap_ratio / update_greens_function of uhf_cpmc and ghf_cpmc equal det(I+G Delta) and ((I+Delta)(I+G Delta)^-1 G)^T as rational identities for an "
                "ARBITRARY matrix G (all values; shapes norb<=3). cpmc.woodbury: at G = calc_full_green(phi) these are the overlap ratio and Green's function of the row-scaled "
                "walker (identity in trial, walker, constants). cpmc.hs: the constants built by init_prop_data satisfy a+b=2, ab=exp(-dt U) (sympy on the real statements), hence "
@@ -14,7 +14,9 @@ EXPLANATION = ("cpmc.ratio/update: for EVERY ordered pair of spin-orbitals (same
                "field values (no constraint active). Shape-bounded => level 'other'.")
 LEVEL_TEXT = EXPLANATION
 LEVEL_NOTE = ("N/D: the 2^n-configuration sum is the composition (telescoping product of the per-site contracts with the one-body halves) stated in DESIGN.md, not re-derived by the machine; "
-              "the nearest-neighbour fast-vs-slow comparison over seeds are not decided. Constraint tests (<1e-8, >100) are assumed inactive.")
+              "the nearest-neighbour variant is decided per loop body (on-site and bond bodies of the fast and the slow propagator satisfy the same contract, neighbour constants as exact "
+              "rationals, one bond of a 2- or 3-site lattice), not as a comparison over seeds; the tail of propagator_cpmc_nn_slow / _slow (overlap-ratio reweighting inlined) is not analysed. "
+              "Constraint tests (<1e-8, >100) are assumed inactive in the body contracts; that each test guards the ratio it tested is cpmc.site.constraint / bond.constraint.")
 TRUSTED_BASE = TRUSTED + ["sympy simplification of exp/acosh expressions (HS constants)"]
 ASSUMPTIONS = ["no constraint active (ratios >= 1e-8, weights <= 100) - path condition of the site contracts", "real-valued walkers and trials for CPMC"]
 
@@ -35,6 +37,13 @@ def tasks(tier):
     for fast in (True, False):
         for kind in ("uhf_cpmc", "ghf_cpmc"):
             t.append((C, "site_body", dict(kind=kind, fast=fast)))
+    # nearest-neighbour variant: its on-site loop body, its neighbour-bond loop body (four sub-steps per bond) for fast and slow, both trial kinds
+    for kind in ("uhf_cpmc", "ghf_cpmc"):
+        for fast in (True, False):
+            t.append((C, "site_body", dict(kind=kind, fast=fast, nn=True)))
+            for bits in ([1, 1, 1, 1], [0, 0, 0, 0], [1, 0, 0, 1]) if kind == "uhf_cpmc" else ([0, 1, 0, 1], [1, 1, 0, 0]):
+                t.append((C, "bond_body", dict(kind=kind, fast=fast, bits=bits)))
+    t.append((C, "tail", dict(cls_name="propagator_cpmc_nn", kind="uhf_cpmc")))
     # what follows the site loop: weights *= exp(dt * E_shift) with E_shift = pop_control_ene_shift, cap, population-control update
     t.append((C, "tail", dict(cls_name="propagator_cpmc", kind="uhf_cpmc")))
     t.append((C, "tail", dict(cls_name="propagator_cpmc", kind="ghf_cpmc")))
